@@ -386,7 +386,7 @@ def run(tier, V):
            'small_patterns_total': len(allp), 'small_patterns_this_run': len(pats), 'slice': '%d/%d' % (sl, nslices),
            'exhaustive': tier == 'thorough',
            'rule': ('(a) ALL expressions of size<=3 over atoms {a,b,.,[ab],[^a],^,$,\\<,\\>} with quantifiers {*,+,?,{1,2}}, groups and alternation (%d patterns; this run: slice %d/%d) x all lines over {a,b,space,e-acute} up to length 3 and sampled length 4 x flag combinations; '
-                    '(b) %d random ASTs (depth<=4, classes, ranges, bounded repeats) x 14 lines (multi-byte, up to 60 chars); (c) sets of 2-6 patterns for the index clause; (d) depth-limit witnesses. '
+                    '(b) %d random ASTs (depth<=4, classes, ranges, bounded repeats) x 14 lines (multi-byte, up to 60 chars); (c) sets of 2-6 patterns for the index clause; (d) depth-limit witnesses; (e) every single-pattern question on a newline-terminated line is asked a second time through rstr_find, the entry point searches, :s and :g use, and must get the set matcher\'s verdict and span. '
                     'non-trivial = engine and reference both found a match with no depth cut and span+groups were compared (agree_match_checked).' % (len(allp), sl, nslices, nrand)),
            'samples': [{'pattern': mr.render(pats[len(pats) // 3]), 'line': 'ab é\n', 'flags': 2},
                        {'pattern': mr.render(jobs[-1][1][0][0]), 'line': jobs[-1][1][0][1][0][0]}]}
